@@ -288,6 +288,15 @@ pub fn run(args: &Args, rep: &mut Report) {
             }
         };
         let mut img = img;
+        if builder_label.is_none() && vc.fat == 32 && rng.chance(1, 2) {
+            // start allocating above cluster 0x10000 so that the high word of first-cluster fields is in play
+            if let Ok(g) = crate::fatck::geo_of(&img) {
+                if g.max_cluster() > 0x1_0010 {
+                    let hint = 0x1_0000 + rng.below(g.max_cluster() - 0x1_0000) as u32;
+                    img.set_u32(g.fsinfo_sector * g.bps + 492, hint);
+                }
+            }
+        }
         if args.flag("statusbits") && rng.chance(1, 2) {
             // mount-time status byte presets (bits 0/1 known, others uninterpreted)
             if let Ok(g) = crate::fatck::geo_of(&img) {
